@@ -6,19 +6,19 @@ sys.path.insert(0, ROOT)
 from checks_config import CONFIG
 
 TEXT = {
- "C01": ("model-based stateful PBT (rapid state machine in a synctest bubble) of Buffer/consumers against a put-order model; first-time reads, batch order, consumer start position", "stateful property-based testing vs reference model (rapid + testing/synctest)"),
- "C02": ("model-based stateful PBT of Commit/Rollback/Range/Buffer.Range against the transactional model, incl. scripted callbacks (panic/stop/put/cancel) and rollback into evicted regions", "stateful property-based testing vs reference model (rapid + testing/synctest)"),
+ "C01": ("model-based stateful PBT (rapid state machine in a synctest bubble) of Buffer/consumers against a put-order model; first-time reads, batch order, consumer start position; plus free-running concurrent programs with a witness-stream oracle and a porcupine linearizability / gap-free oracle over a consumer shared by several goroutines", "stateful property-based testing vs reference model (rapid + testing/synctest)"),
+ "C02": ("model-based stateful PBT of Commit/Rollback/Range/Buffer.Range against the transactional model, incl. scripted callbacks (panic/stop/put/cancel) and rollback into evicted regions; package-level Range over a scripted faulty Consumer against the exact call-order specification; porcupine linearizability of a consumer shared by several goroutines", "stateful property-based testing vs reference model (rapid + testing/synctest)"),
  "C03": ("model-based stateful PBT of retention (cleaner-call log replay, Slice/Size/Diff equalities, lagging consumers fail loudly) plus pure PBT of DefaultCleaner/FixedBufferCleaner against an independent specification", "stateful + pure property-based testing vs reference model/specification (rapid)"),
- "C04": ("model-based stateful PBT in virtual time: after the cooldown has elapsed since the last change the consumed prefix must be gone, for every placement of the change relative to cooldown windows", "stateful property-based testing in virtual time (rapid + testing/synctest)"),
- "C05": ("enabledness oracle at exact quiescence for blocked Get (Buffer stepper) and for WaitCond itself (dedicated stepper): never a lost wake-up, failed Get consumes nothing", "stateful property-based testing with exact-quiescence enabledness oracle (rapid + testing/synctest)"),
+ "C04": ("model-based stateful PBT in virtual time: after the cooldown has elapsed since the last change the consumed prefix must be gone, for every placement of the change relative to cooldown windows; bulk programs (thousands of values, burst commits); real-time window probe with stuck-state confirmation for the timer/cleanup hand-over", "stateful property-based testing in virtual time (rapid + testing/synctest)"),
+ "C05": ("enabledness oracle at exact quiescence for blocked Get (Buffer stepper) and for WaitCond itself (dedicated stepper): never a lost wake-up, failed Get consumes nothing; gate probe placing the event between the waiter's check and its park; free-running programs", "stateful property-based testing with exact-quiescence enabledness oracle (rapid + testing/synctest)"),
  "C06": ("generated concurrent programs (free-running in a bubble) with history invariants: counts, exactly-once, one global order, contiguous runs", "property-based testing over generated concurrent programs with history-invariant oracle (rapid + testing/synctest)"),
  "C07": ("generated concurrent programs with membership churn; termination decided by bubble deadlock detection and a real-time stall watchdog; no panic; final count; instance still works", "property-based testing over generated concurrent programs, deadlock/stall detection (rapid + testing/synctest)"),
- "C08": ("model-based stepper + free-running programs + misuse sequences over the whole int range for ChanCaster", "stateful + concurrent-program + input property-based testing (rapid + testing/synctest)"),
- "C09": ("model-based stepper over Exclusive with gated work functions: per-key mutual exclusion checked at every work-function start, key independence via enabledness at quiescence", "stateful property-based testing with gated callbacks (rapid + testing/synctest)"),
- "C10": ("model-based stepper over Exclusive: answering execution = first begun after the call (logical clock), outcome equality/exactly-once, resolve-not-called, no lost call, no state left", "stateful property-based testing with gated callbacks (rapid + testing/synctest)"),
- "C11": ("generated concurrent programs for every concurrency-safe type executed under the Go race detector; every report with a library frame is a violation", "property-based testing over generated concurrent programs with the Go race detector as oracle"),
- "C12": ("model-based steppers for Buffer/consumers, Channel and WaitCond with generated shutdown orders; enabledness of Close, errors after close, goroutine-leak oracle at bubble end", "stateful property-based testing with goroutine-leak oracle (rapid + testing/synctest)"),
- "C13": ("model-based stateful PBT of Channel against the (taken, committed, replay) model in virtual poll time", "stateful property-based testing vs reference model (rapid + testing/synctest)"),
+ "C08": ("model-based stepper + free-running programs + barrier-synchronised race lane + buffered receivers + misuse sequences over the whole int range (incl. misuse during an in-flight Send) for ChanCaster", "stateful + concurrent-program + input property-based testing (rapid + testing/synctest)"),
+ "C09": ("model-based stepper over Exclusive with gated work functions: per-key mutual exclusion checked at every work-function start, key independence via enabledness at quiescence, rate limits with contexts cancelled mid-work; plus free-running programs with hook-yield plans", "stateful property-based testing with gated callbacks (rapid + testing/synctest)"),
+ "C10": ("model-based stepper over Exclusive: answering execution = first begun after the call (logical clock), outcome equality/exactly-once, resolve-not-called, no lost call, no state left; plus free-running programs with hook-yield plans", "stateful property-based testing with gated callbacks (rapid + testing/synctest)"),
+ "C11": ("generated concurrent programs for every concurrency-safe type executed under the Go race detector; every report with a library frame is a violation; the free-running engines of the other properties are rebuilt with -race as additional program sources", "property-based testing over generated concurrent programs with the Go race detector as oracle"),
+ "C12": ("model-based steppers for Buffer/consumers, Channel and WaitCond with generated shutdown orders; enabledness of Close, errors after close, goroutine-leak oracle at bubble end; per-type leak programs for Exclusive, Workers, Worker, Notifier, context combinators, ExponentialRetry and LinearAttempt; concurrent Close of a shared consumer", "stateful property-based testing with goroutine-leak oracle (rapid + testing/synctest)"),
+ "C13": ("model-based stateful PBT of Channel against the (taken, committed, replay) model in virtual poll time; porcupine linearizability of free-running programs and of a barrier-synchronised two-party race lane; contiguous-snapshot oracle for Buffer() under bulk load", "stateful property-based testing vs reference model + linearizability checking of generated concurrent histories (rapid + testing/synctest + porcupine)"),
  "C14": ("model-based stepper over Workers with gated tasks: exactly-once, result identity, concurrency bound, no starvation and Wait/Count semantics decided at exact quiescence", "stateful property-based testing with gated callbacks (rapid + testing/synctest)"),
  "C15": ("model-based stepper over Notifier: eligible-set delivery exactly once, enabledness of Publish at quiescence, nothing to non-members, registry panics without side effects, leak oracle", "stateful property-based testing vs reference model (rapid + testing/synctest)"),
  "C16": ("generated input-context sets and simultaneous-cancellation steps (real parallelism + a gate on the primary hook) against the documented cancellation/value/exactly-once semantics", "stateful property-based testing with simultaneous-cancel steps (rapid + testing/synctest)"),
